@@ -19,6 +19,9 @@ class DetectVarNames( ast.NodeVisitor ):
     self.obj = obj
     self.globals = upblk.__globals__
     self.closure = { *upblk.__code__.co_freevars }
+    # Python scoping: a name assigned in the block (e.g. a loop variable)
+    # hides closure and global variables of the same name
+    self.locals  = { *upblk.__code__.co_varnames }
 
     if sys.version_info < (3,8,10000):
       self._get_full_name = self._get_full_name_up_to_py38
@@ -51,15 +54,17 @@ class DetectVarNames( ast.NodeVisitor ):
         low = node.slice.lower.n
       elif isinstance( lower, ast.Name ):
         x = lower.id
-        if   x in self.globals: low = (False, x)
+        if   x in self.locals:  pass # assigned in the block itself
         elif x in self.closure: low = (True, x)
+        elif x in self.globals: low = (False, x)
 
       if isinstance( upper, ast.Num ):
         up = node.slice.upper.n
       elif isinstance( upper, ast.Name ):
         x = upper.id
-        if   x in self.globals: up = (False, x)
+        if   x in self.locals:  pass # assigned in the block itself
         elif x in self.closure: up = (True, x)
+        elif x in self.globals: up = (False, x)
 
       if low is not None and up is not None:
         slices.append( slice(low, up) )
@@ -82,8 +87,9 @@ class DetectVarNames( ast.NodeVisitor ):
           n = v.n
         elif isinstance( v, ast.Name ):
           x = v.id
-          if   x in self.globals: n = (False, x)
+          if   x in self.locals:  pass # assigned in the block itself
           elif x in self.closure: n = (True, x)
+          elif x in self.globals: n = (False, x)
         elif isinstance( v, ast.Call ): # int(x)
           for x in v.args:
             self.visit(x)
@@ -150,15 +156,17 @@ class DetectVarNames( ast.NodeVisitor ):
         low = node.slice.lower.n
       elif isinstance( lower, ast.Name ):
         x = lower.id
-        if   x in self.globals: low = (False, x)
+        if   x in self.locals:  pass # assigned in the block itself
         elif x in self.closure: low = (True, x)
+        elif x in self.globals: low = (False, x)
 
       if isinstance( upper, ast.Num ):
         up = node.slice.upper.n
       elif isinstance( upper, ast.Name ):
         x = upper.id
-        if   x in self.globals: up = (False, x)
+        if   x in self.locals:  pass # assigned in the block itself
         elif x in self.closure: up = (True, x)
+        elif x in self.globals: up = (False, x)
 
       if low is not None and up is not None:
         slices.append( slice(low, up) )
@@ -181,8 +189,9 @@ class DetectVarNames( ast.NodeVisitor ):
           n = v.n
         elif isinstance( v, ast.Name ):
           x = v.id
-          if   x in self.globals: n = (False, x)
+          if   x in self.locals:  pass # assigned in the block itself
           elif x in self.closure: n = (True, x)
+          elif x in self.globals: n = (False, x)
         elif isinstance( v, ast.Call ): # int(x)
           for x in v.args:
             self.visit(x)
